@@ -349,6 +349,30 @@ def argBlocks (isSloppyFn : Bool) (name : Name) (ex : Nat) (s : Frame) (rest : L
     | p :: _ => some (lookup name p.members == some ex)
   else some false
 
+/-- `symbol.Flags.Has(MustNotBeRenamed)` -/
+def isPinned (syms : Syms) (r : Nat) : Bool :=
+  match syms[r]? with
+  | some s => s.pinned
+  | none => false
+
+/-- `for target := r; target != InvalidRef; target = symbols[target].Link { symbols[target].Flags |= MustNotBeRenamed }`.
+The fuel is the table size + 1: enough for every chain without a cycle; on a cycle the real loop does not terminate, the
+model stops (cycles do not arise: every link is set on a symbol that has none and points to a symbol declared in an
+enclosing or earlier scope). -/
+def pinLinks : Nat → Syms → Nat → Syms
+  | 0, syms, _ => syms
+  | fuel + 1, syms, t =>
+    match syms[t]? with
+    | none => syms
+    | some s =>
+      match s.link with
+      | none => pin syms t
+      | some l => pinLinks fuel (pin syms t) l
+
+/-- hoistSymbols: `if scope.Kind == ScopeWith { symbol.Flags |= MustNotBeRenamed }` (a `var` declared directly in the body
+of a `with` statement) -/
+def pinIfWith (f : Frame) (syms : Syms) (r : Nat) : Syms := if f.kind = .with_ then pin syms r else syms
+
 /-- the inner `for` loop of hoistSymbols: `s` runs over the enclosing scopes, closest first.
 `mref` = member.Ref (the hoisted symbol), `orig` = originalMemberRef, `first` = `s == scope.Parent`. -/
 def hoistUp (name : Name) (mref orig : Nat) (isSloppyFn : Bool) : Bool → List Frame → HSt → Option (List Frame × HSt)
@@ -367,7 +391,10 @@ def hoistUp (name : Name) (mref orig : Nat) (isSloppyFn : Bool) : Bool → List 
       | some ek, some blocked, some mk =>
         if blocked then some (s :: rest, { st1 with hmap := erase orig st1.hmap })
         else if ek = .unbound ∨ ek = .hoisted ∨ (ek.isFunction ∧ (s.kind = .entry ∨ s.kind = .fnBody)) then
-          some ({ s with members := insert name ex s.members } :: rest, { st1 with syms := setLink st1.syms mref (some ex) })
+          -- `if symbol.Flags.Has(MustNotBeRenamed) {
+          --   for target := existingMember.Ref; target != InvalidRef; target = symbols[target].Link { … } }`
+          let syms2 := if isPinned st1.syms mref then pinLinks (st1.syms.length + 1) st1.syms ex else st1.syms
+          some ({ s with members := insert name ex s.members } :: rest, { st1 with syms := setLink syms2 mref (some ex) })
         else if ek ≠ .catchIdentifier ∧ ek ≠ .arguments then
           if mk ≠ .catchIdentifier ∧ mk ≠ .hoistedFunction then
             if !isSloppyFn then some (s :: rest, { st1 with errs := st1.errs ++ [name] })
@@ -375,7 +402,9 @@ def hoistUp (name : Name) (mref orig : Nat) (isSloppyFn : Bool) : Bool → List 
             else some (s :: rest, st1)
           else some (s :: rest, st1)
         else
-          cont { s with members := insert name mref s.members } { st1 with syms := setLink st1.syms ex (some mref) }
+          -- `if existingSymbol.Kind == SymbolArguments { symbol.Flags |= MustNotBeRenamed }`
+          let syms2 := if ek = .arguments then pin st1.syms mref else st1.syms
+          cont { s with members := insert name mref s.members } { st1 with syms := setLink syms2 ex (some mref) }
       | _, _, _ => none
 
 /-- one iteration of the `nextMember` loop (`f` = the scope whose members are hoisted, `anc` = its ancestors) -/
@@ -389,11 +418,12 @@ def hoistMember (anc : List Frame) (f : Frame) (st : HSt) (mref : Nat) : Option 
       if f.strict ≠ 0 then some (anc, f, st)
       else
         let (syms1, h) := newSymbol st.syms .hoisted sym.name
+        let syms1 := pinIfWith f syms1 h
         match hoistUp sym.name h mref true true anc { st with syms := syms1, hmap := insert mref h st.hmap } with
         | none => none
         | some (anc', st') => some (anc', { f with generated := f.generated ++ [h] }, st')
     else
-      match hoistUp sym.name mref mref false true anc st with
+      match hoistUp sym.name mref mref false true anc { st with syms := pinIfWith f st.syms mref } with
       | none => none
       | some (anc', st') => some (anc', f, st')
   | _, _ => none
@@ -477,7 +507,7 @@ def updLast (g : Frame → Frame) : List Frame → List Frame
 /-- findSymbol on the chain of scopes (current scope first, module scope last): the chain, the symbols, the ref -/
 def findSymbol (chain : List Frame) (syms : Syms) (name : Name) : List Frame × Syms × Nat :=
   match findLoop name false chain with
-  | .member r w => (chain, if w then pin syms r else syms, r)
+  | .member r w => (chain, if w then pinLinks (syms.length + 1) syms r else syms, r)
   | .notFound w =>
     let (syms1, r) := newSymbol syms .unbound name
     (updLast (fun m => { m with members := insert name r m.members }) chain, if w then pin syms1 r else syms1, r)
